@@ -188,8 +188,12 @@ def explore(repo: Repo, cls: ClassInfo, fi: FuncInfo, loc: str, sentinels: set[s
     elems: set[str] = set()
     iterables: dict[tuple[int, int], str] = {}
 
+    positional = re.compile(re.escape(f"{H.SELF}.{loc}") + r"\[(?![^\[\]]*:)[^\[\]]+\]")
+
     def on_event(a, ev, st):
         k = ev[0]
+        if a[0] == "none" and k != "enter" and any(isinstance(x, str) and positional.search(x) for x in ev[1:]):
+            a = ("in", (-1, -1))  # one wrapped dict taken by position (``self.dicts[0]``, ``first, *rest = self.dicts``) is consulted: a scan has started and is not complete
         if k == "iterable":
             iterables[_pos(ev[-2])] = ev[1]
             return a
@@ -309,6 +313,7 @@ class _Tiling(t.NamedTuple):
     first: ast.AST | None
     whole: frozenset = frozenset()  # ids of expressions that put parts together again to the whole list, in order (``first + rest``)
     defs: frozenset = frozenset()  # ids of the nodes inside the definitions of locals standing for parts (judged at the uses)
+    elem_after_list: bool = False  # a single dict read by position after a part that is scanned (``*init, last``)
 
 
 def _flat_names(tg: ast.AST) -> list[str] | None:
@@ -516,7 +521,9 @@ def split_scan(f: FuncInfo, loc: str) -> _Tiling:
         bad = True
     if bad and whole_scans:
         return _Tiling("unknown", nodes, shown, first, rejoined, frozenset(def_ids))  # a complete scan plus extra positional reads: not a split scan
-    return _Tiling("bad" if bad else "ok", nodes, shown, first, rejoined, frozenset(def_ids))
+    kinds = [r[2] for _, r, _ in partial if isinstance(r, tuple)]
+    eal = "list" in kinds and "elem" in kinds[kinds.index("list"):]
+    return _Tiling("bad" if bad else "ok", nodes, shown, first, rejoined, frozenset(def_ids), eal)
 
 
 def combined_read_through_rule(ctx: Ctx, rid: str) -> tuple[int, int]:
@@ -589,6 +596,8 @@ def combined_read_through_rule(ctx: Ctx, rid: str) -> tuple[int, int]:
                 continue
             (early if o.st.auto[0] == "in" else complete).setdefault((o.kind, o.value), o)
         bad = [(k, o) for k, o in sorted(early.items()) if k[0] != "ret" or k in complete]
+        if bad and tiling_of(what).status == "ok" and tiling_of(what).elem_after_list:
+            raise AnalysisError(f"{what.fq}: the scan of self.{loc} is split ({tiling_of(what).fact}) and a single wrapped dict is read by position after a scanned part: the outcomes found in that dict cannot be told from the outcomes after the complete scan")
         if bad:
             (kind, val), o = bad[0]
             lp = sc.loops.get(o.st.auto[1])
